@@ -1,3 +1,4 @@
+import BalmProofs.JudgeSpec
 import Balm.Impl.Diagram
 import Balm.Full
 /-!
